@@ -7,10 +7,11 @@ import LPVerif.Lemmas.FS
   component, *equals* a selected name (component by component); consequently a selected name is always a dotted prefix
   of what it matches (`match_prefix`) and look-alikes (`pkg` vs `pkgx`, `pk`) are never matched (`lookalike_unmatched`);
 * `match_complete_partial` — a top-level import is matched **provided** its name or its parent is among the names to
-  profile; `deep_subpackage_witness` shows the proviso is real (finding F-C09b: names of sub-packages of a selected
-  package are not among those names, only module files are);
-* `walk_names` — the names added for a selected package are exactly those of the module files of the package and its
-  regular sub-packages (C18's `walk_exact`);
+  profile; `names_cover` discharges the proviso for everything below a selected package: since the
+  repair of F-C09b the names of its regular sub-packages are among the names too (`deep_subpackage_repaired`; before:
+  `deep_subpackage_before`);
+* `walk_names`, `walk_pkg_names` — the names added for a selected package are exactly those of the module files of the package
+  and its regular sub-packages (C18's `walk_exact`) and of those sub-packages themselves;
 * `register_sound_partial` — registering a module registers only functions defined in that module **provided** its
   namespace holds nothing defined elsewhere; `foreign_witness` (F-C09a); `methods_witness` (F-C09c: static / class methods
   and properties of a selected class or module are not registered);
@@ -119,25 +120,49 @@ theorem match_complete_partial (M : List Name) (pre : List Imp) (i : Imp) (post 
         · exact ih _ _ h
   exact hkeep post _ _ (by simp)
 
-/-- **F-C09b**: selection `pkg`; `pkg/sub/deep/` is a package two levels below; the names to profile hold `pkg`, and the
-    module *files* `pkg.m`, `pkg.sub.n`, `pkg.sub.deep.x` — but neither `pkg.sub` nor `pkg.sub.deep`: the import is not matched -/
+/-- **F-C09b (repaired)**: selection `pkg`; `pkg/sub/deep/` is a package two levels below.  The names to profile now hold `pkg`,
+    the module files `pkg.m`, `pkg.sub.n`, `pkg.sub.deep.x` *and* the sub-packages `pkg.sub`, `pkg.sub.deep`
+    (`package_modpaths(…, with_pkg=True)`): `from pkg.sub import deep` and `import pkg.sub.deep` are matched.
+    `deep_subpackage_before` is what the tree did before the repair. -/
 def deepTree : FS.Entries :=
   .cons "__init__.py" .file (.cons "m.py" .file (.cons "sub" (.dir (.cons "__init__.py" .file (.cons "n.py" .file
     (.cons "deep" (.dir (.cons "__init__.py" .file (.cons "x.py" .file .nil))) .nil)))) .nil))
-theorem deep_subpackage_witness :
-    namesUnder ["pkg"] (FS.walk deepTree) = [["pkg"], ["pkg", "m"], ["pkg", "sub", "n"], ["pkg", "sub", "deep", "x"]] ∧
+theorem deep_subpackage_repaired :
+    namesToProfile ["pkg"] (FS.walk deepTree) (FS.walkPkgs deepTree)
+      = [["pkg"], ["pkg", "m"], ["pkg", "sub", "n"], ["pkg", "sub", "deep", "x"], ["pkg", "sub"], ["pkg", "sub", "deep"]] ∧
+    matchImports (namesToProfile ["pkg"] (FS.walk deepTree) (FS.walkPkgs deepTree)) [⟨["pkg", "sub", "deep"], "deep", 0⟩] = [(0, "deep")] := by
+  decide +kernel
+theorem deep_subpackage_before :
     matchImports (namesUnder ["pkg"] (FS.walk deepTree)) [⟨["pkg", "sub", "deep"], "deep", 0⟩] = [] ∧
     matchImports (namesUnder ["pkg"] (FS.walk deepTree)) [⟨["pkg", "sub", "n"], "n", 0⟩, ⟨["pkg", "m", "f"], "f", 1⟩, ⟨["pkg", "m", "g"], "g", 1⟩]
       = [(0, "n"), (1, "f"), (1, "g")] := by
   decide +kernel
 
-/-- the names added for a selected package come from exactly the module files of the package and its regular sub-packages -/
+/-- the names added for a selected package come from exactly the module files of the package and its regular sub-packages … -/
 theorem walk_names (pkg : FS.Entries) (p : List String) : p ∈ FS.walk pkg ↔ (pkg.isPkg = true ∧ FS.InPkg pkg p) :=
   LPVerif.FS.mem_walkEntries pkg p |> fun h => by
     unfold FS.walk
     by_cases hp : pkg.isPkg = true
     · simp [hp, h]
     · simp [hp]
+
+/-- … and from exactly the regular packages nested in regular packages below it -/
+theorem walk_pkg_names (pkg : FS.Entries) (p : List String) : p ∈ FS.walkPkgs pkg ↔ (pkg.isPkg = true ∧ FS.SubPkg pkg p) :=
+  LPVerif.FS.mem_walkPkgEntries pkg p |> fun h => by
+    unfold FS.walkPkgs
+    by_cases hp : pkg.isPkg = true
+    · simp [hp, h]
+    · simp [hp]
+
+/-- **every module and every sub-package below a selected package is among the names to profile** (hence an import of it, or of
+    something directly inside it, gets its registration call: `match_complete_partial`) -/
+theorem names_cover (sel : Name) (pkg : FS.Entries) (hp : pkg.isPkg = true) :
+    sel ∈ namesToProfile sel (FS.walk pkg) (FS.walkPkgs pkg) ∧
+    (∀ p, FS.SubPkg pkg p → sel ++ p ∈ namesToProfile sel (FS.walk pkg) (FS.walkPkgs pkg)) := by
+  refine ⟨by simp [namesToProfile, namesUnder], ?_⟩
+  intro p hsub
+  simp only [namesToProfile, List.mem_append, List.mem_map]
+  exact Or.inr ⟨p, (walk_pkg_names pkg p).mpr ⟨hp, hsub⟩, rfl⟩
 
 /-! ## run-time registration -/
 
